@@ -20,7 +20,11 @@ func TestDbg(t *testing.T) {
 	n, _ := strconv.Atoi(os.Getenv("JSIM_DBG"))
 	synctest.Test(t, func(t *testing.T) {
 		for i := 0; i < n; i++ {
-			seed := tape.Mix(11, uint64(i))
+			base, _ := strconv.ParseUint(os.Getenv("JSIM_DBG_BASE"), 10, 64)
+			seed := tape.Mix(11+base, uint64(i))
+			if sd := os.Getenv("JSIM_DBG_SEED"); sd != "" {
+				seed, _ = strconv.ParseUint(sd, 10, 64)
+			}
 			r := sim.Exec(C13, "C13", "quick", seed, sim.Options{PanicIsViolation: true})
 			fmt.Printf("seed %d: evals=%d events=%d tape=%d viol=%v mach=%.300q\n   %s\n", i, r.Evals, len(r.Events), r.TapeLen, r.Violation != nil, r.Machinery, r.Events[0])
 			if os.Getenv("JSIM_DBG_DET") != "" {
